@@ -1115,6 +1115,10 @@ func lengthGuarded(fn *ssa.Function, call *ssa.Call, base ssa.Value, desc string
 // is computed and dropped: the corresponding input of the proof is not bound to anything).
 // ---------------------------------------------------------------------------------------------
 func deadAccumulators(p *Program, fn *ssa.Function) (int, []Finding) {
+	return deadAccumulatorsMin(p, fn, 1)
+}
+
+func deadAccumulatorsMin(p *Program, fn *ssa.Function, minSteps int) (int, []Finding) {
 	var hits []Finding
 	n := 0
 	for _, b := range fn.Blocks {
@@ -1163,7 +1167,7 @@ func deadAccumulators(p *Program, fn *ssa.Function) (int, []Finding) {
 					}
 				}
 			}
-			if defs == 0 {
+			if defs < minSteps {
 				continue
 			}
 			n++
@@ -1364,6 +1368,7 @@ func sharedFieldStorage(p *Program, fn *ssa.Function) (int, []Finding) {
 		pos   token.Pos
 	}
 	byVal := map[ssa.Value][]fstore{}
+	var direct []Finding
 	n := 0
 	for _, b := range fn.Blocks {
 		for _, in := range b.Instrs {
@@ -1383,9 +1388,29 @@ func sharedFieldStorage(p *Program, fn *ssa.Function) (int, []Finding) {
 			}
 			n++
 			byVal[st.Val] = append(byVal[st.Val], fstore{fa.X, fieldName(fa.X.Type(), fa.Field), st.Pos()})
+			// the slice held by another field of the same object (or a reslice of it) copied into
+			// this field: `h.state = h.iv`
+			src := st.Val
+			for {
+				if sl, ok := src.(*ssa.Slice); ok {
+					src = sl.X
+					continue
+				}
+				break
+			}
+			if ld, ok := src.(*ssa.UnOp); ok && ld.Op == token.MUL {
+				if fb, ok := ld.X.(*ssa.FieldAddr); ok && sameObject(fb.X, fa.X) && fb.Field != fa.Field {
+					f1, f2 := fieldName(fa.X.Type(), fa.Field), fieldName(fb.X.Type(), fb.Field)
+					if f2 < f1 {
+						f1, f2 = f2, f1
+					}
+					direct = append(direct, Finding{fn, st.Pos(), "shared-storage(" + f1 + "," + f2 + ")",
+						fmt.Sprintf("%s: the slice held by the field %s is stored in the field %s of the same object: they share a backing array, an in-place update of one is an update of the other", funcKey(fn), fieldName(fb.X.Type(), fb.Field), fieldName(fa.X.Type(), fa.Field))})
+				}
+			}
 		}
 	}
-	var hits []Finding
+	hits := direct
 	for v, ss := range byVal {
 		for i := 0; i < len(ss); i++ {
 			for j := i + 1; j < len(ss); j++ {
@@ -1760,9 +1785,9 @@ func elementAliasHazard(p *Program, fn *ssa.Function) (int, []Finding) {
 								r = true
 							}
 						}
-						if w && r {
-							continue // one instruction: the callee is judged on its own (assembly: trusted to load first)
-						}
+						// an instruction that does both is fine by itself (the callee is judged on its
+						// own; assembly is trusted to load first) but its write precedes later reads,
+						// and inside a loop it precedes its own next execution
 						if w {
 							writes = append(writes, in)
 						}
@@ -1775,7 +1800,7 @@ func elementAliasHazard(p *Program, fn *ssa.Function) (int, []Finding) {
 			reported := false
 			for _, w := range writes {
 				for _, r := range reads {
-					if reported || w == r || !instrMayPrecede(fn, w, r) {
+					if reported || !instrMayPrecede(fn, w, r) {
 						continue
 					}
 					reported = true
